@@ -24,7 +24,24 @@ def heap_noise(seed: int):
 
 
 STAGES = ["detection_results_json", "protoclusters", "gene_annotations", "areas", "record_json", "genbank", "refined_hits",
-          "pfam_style_hits", "hmm_detection_module_json"]
+          "pfam_style_hits", "hmm_detection_module_json", "limited_ruleset_rule_order"]
+_LIMITED = {}
+
+
+def limited_ruleset_digest() -> str:
+    """ the shipped rules limited to a handful of names (--hmmdetection-limit-to-rule-names): the order the rules are
+        applied in decides the order - and so the numbers - of protoclusters with equal coordinates """
+    if "digest" not in _LIMITED:
+        import types
+        from antismash.detection import hmm_detection
+        base = dict(hmmdetection_strictness="relaxed", hmmdetection_limit_to_categories=[], taxon="bacteria",
+                    hmmdetection_fungal_cutoff_multiplier=1.0, hmmdetection_fungal_neighbourhood_multiplier=1.5)
+        everything = hmm_detection.get_ruleset(types.SimpleNamespace(hmmdetection_limit_to_rules=[], **base))
+        names = [rule.name for rule in everything.rules]
+        wanted = names[3:40:6]      # spread over the file, in file order
+        limited = hmm_detection.get_ruleset(types.SimpleNamespace(hmmdetection_limit_to_rules=list(reversed(wanted)), **base))
+        _LIMITED["digest"] = digest(repr([(rule.name, rule.cutoff, rule.neighbourhood) for rule in limited.rules]))
+    return _LIMITED["digest"]
 
 
 def run_case(case):
@@ -102,6 +119,7 @@ def run_case(case):
         out.append(digest(json.dumps(module_results.to_json())))
     finally:
         hmm_detection.get_ruleset, hmm_detection.detect_protoclusters_and_signatures = originals
+    out.append(limited_ruleset_digest())
     orders = repr(list({h["p"] for hs in scene["hits"] for h in hs})) + repr(list(set(r["name"] for r in rules)))
     return out, digest(orders)
 
